@@ -231,6 +231,21 @@ pub(crate) fn number_of_hops<EntryType: Entry>(
     }
 }
 
+/// Returns true if the interface identifiers of the segment are consistent.
+///
+/// The interface identifier 0 stands for "no interface". In a well-formed segment it marks
+/// exactly the ingress of the first and the egress of the last AS entry. Segments obtained from a
+/// faulty control service may violate this (e.g. reordered, removed or zeroed entries); data
+/// plane paths built from them would not be consistent with their own interface list.
+#[inline]
+fn is_well_formed<EntryType: Entry>(segment: &PathSegment<EntryType>) -> bool {
+    let last = segment.len().saturating_sub(1);
+    segment.iter().enumerate().all(|(idx, entry)| {
+        let hop_field = &entry.hop_entry.hop_field;
+        (hop_field.cons_ingress == 0) == (idx == 0) && (hop_field.cons_egress == 0) == (idx == last)
+    })
+}
+
 impl<'a, EntryType: Entry, F> MultiGraph<'a, F, EntryType>
 where
     F: Fn(&InputSegment<EntryType>, u64, bool) -> u64,
@@ -250,7 +265,8 @@ where
     /// See add_core_segment and add_non_core_segment for more details.
     ///
     /// Returns the count of segments which were successfully added.
-    /// If a segment contains no hops, it is not added to the graph.``
+    /// If a segment contains no hops or is not well-formed (see `is_well_formed`), it is not
+    /// added to the graph.
     #[inline]
     pub fn add_segments(&mut self, segments: &'a [InputSegment<EntryType>]) -> usize {
         let mut added = 0;
@@ -264,6 +280,11 @@ where
 
     #[inline]
     fn add_segment(&mut self, segment: &'a InputSegment<EntryType>) -> Result<(), &'static str> {
+        if !is_well_formed(segment.path_segment()) {
+            // Paths built from such a segment would not match their own hop fields.
+            return Err("Segment is not well-formed");
+        }
+
         match segment {
             InputSegment::Core(..) => {
                 self.add_core_segment(segment)?;
@@ -342,6 +363,11 @@ where
             }
 
             for (peer_idx, peer) in entry.peer_entries.iter().enumerate() {
+                if peer.hop_field.cons_ingress == 0 || peer.peer_interface == 0 {
+                    // A peering link needs an interface on both sides.
+                    continue;
+                }
+
                 // The peering vertices are oriented in the direction that the peering link is
                 // used. We add two edges, one for each direction.
                 self.add_directed_edge(
@@ -802,17 +828,14 @@ impl<'a, EntryType: Entry> PathSolution<'a, EntryType> {
                 .expect("valid path encoding should always produce a valid view"),
         );
 
-        let start_ia = interfaces
-            .first()
-            .expect("edges are checked to be not empty")
-            .interface
-            .isd_asn;
+        let (Some(first_interface), Some(last_interface)) = (interfaces.first(), interfaces.last())
+        else {
+            // A solution that does not traverse any interface is not a path.
+            return Ok(None);
+        };
 
-        let end_ia = interfaces
-            .last()
-            .expect("edges are checked to be not empty")
-            .interface
-            .isd_asn;
+        let start_ia = first_interface.interface.isd_asn;
+        let end_ia = last_interface.interface.isd_asn;
 
         let metadata = PathMetadata {
             expiration: expiration.into(),
